@@ -137,11 +137,18 @@ def run(chk, model_ok):
             cases.append(('index', s, rng.choice(s) if s and rng.random() < 0.7 else rng.choice(TV)))
         else:
             cases.append(('agg', s, rng.randint(0, 3)))
-    # fixed: every pair of values through distinct-values and index-of (the whole eq relation)
+    # fixed: every pair of values through distinct-values, index-of and deep-equal (the whole eq relation)
     for a in TV:
         for b in TV:
             cases.append(('dv', [a, b], None))
             cases.append(('index', [a], b))
+            cases.append(('deq', [a], [b]))
+    for _ in range(60 if quick else 3000):
+        s1 = seq()
+        s2 = [(rng.choice([t for t in TV if t[2] == x[2]]) if rng.random() < 0.5 else x) for x in s1]
+        if rng.random() < 0.2:
+            s2 = s2[:-1] if s2 and rng.random() < 0.5 else s2 + [rng.choice(TV)]
+        cases.append(('deq', s1, s2))
     for g in ('n', 's', 'b', 'd', 'dt', 't', 'ym', 'dtd', 'o', 'hex', 'b64'):
         for a in [t for t in TV if t[2] == g]:
             for f in range(4):
@@ -155,6 +162,8 @@ def run(chk, model_ok):
             terms.append(f'(run_dv {lit(s)}, [0])')
         elif kind == 'index':
             terms.append(f'(([[0]], [0]), run_index {lit(s)} ({x[1]}))')
+        elif kind == 'deq':
+            terms.append(f'(([[0]], [0]), run_deq {lit(s)} {lit(x)})')
         else:
             terms.append(f'(([[0]], [0]), run_agg {x} {lit(s)})')
     model = core.run_coq_cases('C08', IMPORTS, terms, chunk=400, tag='typed') if model_ok else [None] * len(cases)
@@ -166,8 +175,12 @@ def run(chk, model_ok):
         desc = {'fn': kind if kind != 'agg' else FN[x], 'S': [t[0] for t in s]}
         if kind == 'index':
             desc['search'] = x[0]
+        if kind == 'deq':
+            desc['T'] = [t[0] for t in x]
         try:
-            if kind == 'dv':
+            if kind == 'deq':
+                r = ev('deep-equal($S, $T)', S=vals, T=[val[t[0]] for t in x])
+            elif kind == 'dv':
                 r = ev('distinct-values($S)', S=vals)
             elif kind == 'index':
                 r = ev('index-of($S, $x)', S=vals, x=val[x[0]])
@@ -200,6 +213,14 @@ def run(chk, model_ok):
                                                      'spec: one value per class, classes': len(reps), 'class_of': class_of})
             if len(reps) >= 2:
                 chk.nontrivial.add(repr(('dv', desc['S'])))
+        elif kind == 'deq':
+            want = [bool(mo[2][0])]
+            got = ['error ' + err] if err else [bool(v) for v in r]
+            if got != want:
+                chk.corr_fail.append((desc, got, want))
+                chk.violation('impl-vs-spec', desc, {'impl': got, 'spec': want})
+            if want[0] and s:
+                chk.nontrivial.add(repr(('deq', desc['S'], desc['T'])))
         elif kind == 'index':
             want = list(mo[2])
             got = ['error ' + err] if err else [int(v) for v in r]
